@@ -152,8 +152,9 @@ theorem defKLines_text (h : Helper) : h.defKLines.map (·.2) = h.defLines := by
   simp [Helper.defKLines, Helper.defLines, (fklines_text h.ls h.body []).1, Function.comp_def]
 
 theorem helperKLines_text (hs : List Helper) : (helperKLines hs).map (·.2) = helperLines hs := by
-  simp only [helperKLines, helperLines, List.map_append, List.map_map, Function.comp_def]
+  simp only [helperKLines, helperLines, List.map_append]
   congr 1
+  · split <;> simp [Function.comp_def]
   induction hs with
   | nil => rfl
   | cons h t ih => simp only [List.flatMap_cons, List.map_append, ih, defKLines_text]
@@ -162,7 +163,12 @@ theorem defKLines_kdepth (h : Helper) (d : Nat) : kdepth d (h.defKLines.map (·.
   simp [Helper.defKLines, kdepth_append, kdepth, fklines_kdepth, kdepth_flats, Function.comp_def]
 
 theorem helperKLines_kdepth (hs : List Helper) (d : Nat) : kdepth d ((helperKLines hs).map (·.1)) = some d := by
-  simp only [helperKLines, List.map_append, List.map_map, Function.comp_def, kdepth_append, kdepth_flats, Option.bind_some]
+  have hp : kdepth d ((if 1 < hs.length then hs.map (fun h => (LK.flat, h.sig ++ ";")) else []).map (·.1)) = some d := by
+    split
+    · simp only [List.map_map, Function.comp_def]; exact kdepth_flats _ d
+    · rfl
+  simp only [helperKLines, List.map_append, kdepth_append, hp, Option.bind_some]
+  clear hp
   induction hs with
   | nil => rfl
   | cons h t ih => simp only [List.flatMap_cons, List.map_append, kdepth_append, defKLines_kdepth, Option.bind_some, ih]
